@@ -201,10 +201,11 @@ Definition para_parts (clean : bool) (cm : list comment) (ns : list node) : list
 (* ---------- paragraph prefix ---------- *)
 Section Prefix.
 Variable isspace iscased_upper iscased_lower : char -> bool.
+Variable other_text : N -> str.      (* what python-docx's paragraph.text shows of an opaque paragraph child (hyperlink text) *)
 (* python-docx paragraph.text: direct runs only; w:t, tab, br/cr (delText and content of w:ins / w:del not included) *)
 Definition pd_kid_text (k : rchild) : str := match k with CT s => s | CTab => [9%N] | CBr | CCr => [10%N] | _ => [] end.
 Definition pd_run_text (kids : list rchild) : str := flat_map pd_kid_text kids.
-Definition pd_para_text (ns : list node) : str := flat_map (fun n => match n with NRun _ _ k => pd_run_text k | _ => [] end) ns.
+Definition pd_para_text (ns : list node) : str := flat_map (fun n => match n with NRun _ _ k => pd_run_text k | NOther t => other_text t | _ => [] end) ns.
 Fixpoint lstrip (s : str) : str := match s with c :: s' => if isspace c then lstrip s' else s | [] => [] end.
 Definition strip_ws (s : str) : str := rev (lstrip (rev (lstrip s))).
 Definition isupper_str (s : str) : bool := existsb iscased_upper s && negb (existsb iscased_lower s).
@@ -232,48 +233,38 @@ Definition para_spans_of (clean : bool) (cm : list comment) (p : para) : list sp
   map (fun pt => {| sp_text := p_text pt; sp_real := p_real pt; sp_uid := p_uid pt; sp_pid := Some (p_id p) |}) (para_parts clean cm (p_nodes p)).
 Definition is_empty_spans (l : list span) : bool := forallb (fun s => match sp_text s with [] => true | _ => false end) l.
 
-(* blocks of a container joined by a blank line; an empty table is skipped; returns (spans, emitted_any, prev_paragraph) *)
+(* generic joins (recursion on the list only, so that block_spans can pass itself as `f`) *)
+Definition join_with {A} (sep : list span) (f : A -> list span) : list A -> list span :=
+  fix go (l : list A) : list span :=
+    match l with
+    | [] => []
+    | [x] => f x
+    | x :: l' => f x ++ sep ++ go l'
+    end.
+Definition is_para (b : block) : option nat := match b with BPara p => Some (p_id p) | _ => None end.
+(* blocks of a container joined by a blank line (the separator belongs to the paragraph it follows); a table without any
+   text is skipped *)
+Definition join_blocks (f : block -> list span) : bool -> option nat -> list block -> list span :=
+  fix go (emitted : bool) (prev : option nat) (bs : list block) : list span :=
+    match bs with
+    | [] => []
+    | b :: bs' =>
+      let sp := f b in
+      match is_para b with
+      | Some pid => (if emitted then [vspan s_nlnl prev] else []) ++ sp ++ go true (Some pid) bs'
+      | None => if is_empty_spans sp then go emitted prev bs'
+                else (if emitted then [vspan s_nlnl prev] else []) ++ sp ++ go true None bs'
+      end
+    end.
 Fixpoint block_spans (clean : bool) (cm : list comment) (b : block) : list span :=
   match b with
   | BPara p => para_spans_of clean cm p
   | BTbl _ rows =>
-      (fix rows_go (first : bool) (rs : list (list (N * list block))) : list span :=
-         match rs with
-         | [] => []
-         | r :: rs' =>
-           (if first then [] else [vspan s_nl None]) ++
-           (fix cells_go (firstc : bool) (cs : list (N * list block)) : list span :=
-              match cs with
-              | [] => []
-              | (_, bl) :: cs' =>
-                (if firstc then [] else [vspan s_bar None]) ++
-                (fix blocks_go (emitted : bool) (prev : option nat) (bs : list block) : list span :=
-                   match bs with
-                   | [] => []
-                   | b' :: bs' =>
-                     let sp := block_spans clean cm b' in
-                     match b' with
-                     | BPara p => (if emitted then [vspan s_nlnl prev] else []) ++ sp ++ blocks_go true (Some (p_id p)) bs'
-                     | BTbl _ _ => if is_empty_spans sp then blocks_go emitted prev bs'
-                                   else (if emitted then [vspan s_nlnl prev] else []) ++ sp ++ blocks_go true None bs'
-                     end
-                   end) false None bl ++
-                cells_go false cs'
-              end) true r ++
-           rows_go false rs'
-         end) true rows
+      join_with [vspan s_nl None]
+        (fun r => join_with [vspan s_bar None] (fun c => join_blocks (block_spans clean cm) false None (snd c)) r) rows
   end.
-Fixpoint blocks_spans (clean : bool) (cm : list comment) (emitted : bool) (prev : option nat) (bs : list block) : list span :=
-  match bs with
-  | [] => []
-  | b :: bs' =>
-    let sp := block_spans clean cm b in
-    match b with
-    | BPara p => (if emitted then [vspan s_nlnl prev] else []) ++ sp ++ blocks_spans clean cm true (Some (p_id p)) bs'
-    | BTbl _ _ => if is_empty_spans sp then blocks_spans clean cm emitted prev bs'
-                  else (if emitted then [vspan s_nlnl prev] else []) ++ sp ++ blocks_spans clean cm true None bs'
-    end
-  end.
+Definition blocks_spans (clean : bool) (cm : list comment) (emitted : bool) (prev : option nat) (bs : list block) : list span :=
+  join_blocks (block_spans clean cm) emitted prev bs.
 Fixpoint stories_spans (clean : bool) (cm : list comment) (emitted : bool) (ss : list story) : list span :=
   match ss with
   | [] => []
